@@ -403,6 +403,11 @@ pub struct ScenOut {
 }
 
 /// Run one scenario under an optional single-fault plan and judge descriptor hygiene.
+thread_local! {
+    /// second fault of a two-fault case: (parent call index, errno); consulted by run_scenario
+    static SECOND: std::cell::Cell<Option<(u32, i32)>> = const { std::cell::Cell::new(None) };
+}
+
 pub fn run_scenario(sc: &Scenario, plan: Option<Plan>, random: Option<u32>, dec: Dec, record: bool, slot: u64, low_fd_free: bool) -> (ScenOut, Dec) {
     let dir = format!("/verif/work/c12.{}.{}", unsafe { libc::getpid() }, slot % 4);
     prepare_dir(&dir);
@@ -445,6 +450,29 @@ pub fn run_scenario(sc: &Scenario, plan: Option<Plan>, random: Option<u32>, dec:
                 return Some(simk::kern::neg(e));
             }
             None
+        };
+        *k.extra.borrow_mut() = Some(Box::new(f));
+    }
+    let second = SECOND.with(std::cell::Cell::get);
+    let second_fired = std::rc::Rc::new(std::cell::Cell::new(None::<usize>));
+    if let (Some((j, e2)), None) = (second, random) {
+        // two-fault case: the plan's fault first, then parent call j fails with e2
+        let kp: *const PassKernel = &k;
+        let sf = second_fired.clone();
+        let f = move |n: usize, _a: [usize; 6]| -> Option<usize> {
+            let k = unsafe { &*kp };
+            if k.in_child.get() || k.parent_calls.get() != j || n == sc::nr::CLOSE || n == sc::nr::EXIT || n == sc::nr::MUNMAP {
+                return None;
+            }
+            k.fault_fired.set(true);
+            sf.set(Some(n));
+            k.trace.borrow_mut().push(n);
+            k.parent_calls.set(j + 1);
+            if let Some(s) = sched::sim() {
+                s.count("fault.second_errno_fired");
+                s.trace.ev(|| format!("fault (second): {} -> -{e2}", sys_name(n)));
+            }
+            Some(simk::kern::neg(e2))
         };
         *k.extra.borrow_mut() = Some(Box::new(f));
     }
@@ -495,6 +523,10 @@ pub fn run_scenario(sc: &Scenario, plan: Option<Plan>, random: Option<u32>, dec:
                 "ok-path".to_string()
             }
         }
+    };
+    let fail_label = match second_fired.get() {
+        Some(n2) => format!("{fail_label}+then-{}", sys_name(n2)),
+        None => fail_label,
     };
     let mut violation = panic_v;
     if violation.is_none() {
@@ -550,6 +582,8 @@ pub fn run_scenario(sc: &Scenario, plan: Option<Plan>, random: Option<u32>, dec:
 
 struct Table {
     cases: Vec<(usize, Option<Plan>, bool)>,
+    /// two-fault cases: scenario, first fault, second fault (parent call index, errno)
+    pairs: Vec<(usize, Plan, (u32, i32))>,
 }
 
 static TABLE: OnceLock<Table> = OnceLock::new();
@@ -558,6 +592,7 @@ fn table() -> &'static Table {
     TABLE.get_or_init(|| {
         let scs = scenarios();
         let mut cases = Vec::new();
+        let mut pairs = Vec::new();
         for (i, sc) in scs.iter().enumerate() {
             let (o, _) = run_scenario(sc, None, None, Dec::from_list(Vec::new()), false, 0, false);
             cases.push((i, None, false));
@@ -567,6 +602,27 @@ fn table() -> &'static Table {
                     cases.push((i, Some(Plan { side: Side::Parent, index: idx as u32, errno: e }), false));
                     if e == plausible_errnos(*n)[0] {
                         cases.push((i, Some(Plan { side: Side::Parent, index: idx as u32, errno: e }), true));
+                    }
+                }
+            }
+            // depth 2 on paths that go on after the first fault (a retry after EINTR, a fall-back,
+            // an error path that does more than close): every later call of that run fails in turn
+            if !sc.forks {
+                for (idx, n) in o.trace.iter().enumerate() {
+                    for &e in plausible_errnos(*n) {
+                        let first = Plan { side: Side::Parent, index: idx as u32, errno: e };
+                        let (o1, _) = run_scenario(sc, Some(first), None, Dec::from_list(Vec::new()), false, 0, false);
+                        if !o1.fired || o1.violation.is_some() {
+                            continue;
+                        }
+                        for (j, n2) in o1.trace.iter().enumerate().skip(idx + 1) {
+                            if *n2 == sc::nr::CLOSE || *n2 == sc::nr::MUNMAP || *n2 == sc::nr::EXIT {
+                                continue;
+                            }
+                            for &e2 in plausible_errnos(*n2) {
+                                pairs.push((i, first, (j as u32, e2)));
+                            }
+                        }
                     }
                 }
             }
@@ -581,7 +637,7 @@ fn table() -> &'static Table {
                 }
             }
         }
-        Table { cases }
+        Table { cases, pairs }
     })
 }
 
@@ -596,7 +652,7 @@ impl Check for C12 {
         "simk (engine A): pass-through kernel with descriptor model and single-fault plans"
     }
     fn cases(&self, tier: Tier) -> u64 {
-        table().cases.len() as u64 + if tier == Tier::Thorough { 200_000 } else { 3_000 }
+        (table().cases.len() + table().pairs.len()) as u64 + if tier == Tier::Thorough { 200_000 } else { 3_000 }
     }
     fn exhaustive(&self, _tier: Tier) -> bool {
         false
@@ -605,7 +661,7 @@ impl Check for C12 {
         12
     }
     fn rule(&self) -> String {
-        "enumeration part (complete): for each of the scenarios in c12.rs (public fd-creating operations incl. invalid-argument variants), pass 1 records the system-call trace on the real kernel, then every call index of that trace (parent side, and child side of fork for spawn) is failed - the call is not executed - with every plausible errno of that call (table in simk::fdm); plus the fault-free run; the fault-free run and one errno per call index are repeated with descriptor 0 closed beforehand (the kernel then hands out 0 to the operation). seeded part: scenario drawn by seed, every call fails with probability 1..4/64 (multi-fault). Oracle after each run: the process's real descriptor set (/proc/self/fd) after dropping the operation's results equals the set before; the model flags a close of a descriptor the scenario neither opened nor was given and a second close of the same descriptor (a descriptor handed to the operation by the caller may be closed by it once). non-trivial = a fault actually fired; distinct = hash of (scenario, trace, plan, outcome)".into()
+        "enumeration part (complete): for each of the scenarios in c12.rs (public fd-creating operations incl. invalid-argument variants), pass 1 records the system-call trace on the real kernel, then every call index of that trace (parent side, and child side of fork for spawn) is failed - the call is not executed - with every plausible errno of that call (table in simk::fdm); plus the fault-free run; the fault-free run and one errno per call index are repeated with descriptor 0 closed beforehand (the kernel then hands out 0 to the operation). depth 2 (complete over the recorded continuations, scenarios without fork): for every single fault after which the operation goes on (retry after EINTR, fall-back, error path with further calls), every later call of that run other than close/munmap fails in turn with every plausible errno. seeded part: scenario drawn by seed, every call fails with probability 1..4/64 (multi-fault). Oracle after each run: the process's real descriptor set (/proc/self/fd) after dropping the operation's results equals the set before; the model flags a close of a descriptor the scenario neither opened nor was given and a second close of the same descriptor (a descriptor handed to the operation by the caller may be closed by it once). non-trivial = a fault actually fired; distinct = hash of (scenario, trace, plan, outcome)".into()
     }
     fn assumptions(&self) -> Vec<String> {
         vec![
@@ -618,21 +674,28 @@ impl Check for C12 {
         json!({"real": ["tiny-std fs/net/process/epoll/pty/passwd code, rusl wrappers", "the Linux kernel (files on disk, unix and loopback sockets, pipes, fork/exec)"], "stub": ["the failing call (replaced by -errno at the sc seam)"]})
     }
     fn extra(&self, _tier: Tier) -> Value {
-        json!({"scenarios": scenarios().iter().map(|s| s.name).collect::<Vec<_>>(), "single_fault_cases": table().cases.len()})
+        json!({"scenarios": scenarios().iter().map(|s| s.name).collect::<Vec<_>>(), "single_fault_cases": table().cases.len(), "two_fault_cases": table().pairs.len()})
     }
     fn run(&self, case: u64, mut dec: Dec, opts: &RunOpts) -> RunOut {
         let scs = scenarios();
         let t = table();
+        let mut second = None;
         let (si, plan, random, low) = if (case as usize) < t.cases.len() {
             let (si, p, low) = t.cases[case as usize];
             (si, p, None, low)
+        } else if (case as usize) < t.cases.len() + t.pairs.len() {
+            let (si, p, sec) = t.pairs[case as usize - t.cases.len()];
+            second = Some(sec);
+            (si, Some(p), None, false)
         } else {
             let si = dec.choose(K::Op, scs.len() as u32) as usize;
             let p = 1 + dec.choose(K::Cfg, 4);
             (si, None, Some(p), dec.chance(K::Cfg, 1, 3))
         };
         let sc = &scs[si];
+        SECOND.with(|c| c.set(second));
         let (mut o, mut dec) = run_scenario(sc, plan, random, dec, opts.record, case, low);
+        SECOND.with(|c| c.set(None));
         if random.is_some() && o.violation.is_some() {
             // fault minimisation: does one of the fired faults alone reproduce a violation? then
             // report it under that single-fault signature (the same one the enumeration part uses)
@@ -653,6 +716,7 @@ impl Check for C12 {
         out.decisions = std::mem::take(&mut dec.log);
         out.counters.insert("fault.single_errno_fired", u64::from(o.fired && random.is_none()));
         out.counters.insert("fault.random_mode_runs_with_a_fault", u64::from(o.fired && random.is_some()));
+        out.counters.insert("fault.two_fault_cases", u64::from(second.is_some()));
         out.counters.insert("probe.plan_not_reached", u64::from(plan.is_some() && !o.fired));
         out.counters.insert("probe.operation_returned_ok_despite_fault", u64::from(o.fired && o.result_ok));
         out.counters.insert("probe.child_returned_into_caller", u64::from(o.returned_in_child));
